@@ -5,7 +5,7 @@ import random
 
 from impl import real_match_len
 
-SPECIAL_LENS = [73, 74, 75, 76, 147, 148, 149, 150, 221, 222, 223]
+SPECIAL_LENS = [73, 74, 75, 76, 147, 148, 149, 150, 221, 222, 223, 295, 296, 297]
 
 RULES = [{"k": "domain"}, {"k": "subdomain"}, {"k": "path", "n": 1}, {"k": "path", "n": 2}]
 
